@@ -107,7 +107,16 @@ func (fr *frame) instr(in ssa.Instruction, st *State) {
 		fr.vals[x] = res
 	case *ssa.Go:
 		s.note("%s: go statement: the spawned call is executed synchronously at the spawn point (no interleaving)", fk)
-		if _, isClosure := x.Common().Value.(*ssa.MakeClosure); isClosure || x.Common().StaticCallee() != nil {
+		if mc, isClosure := x.Common().Value.(*ssa.MakeClosure); isClosure || x.Common().StaticCallee() != nil {
+			// `deferred go`: the spawned literal really runs later - what it captured by
+			// reference must keep its value (its body is executed right here anyway)
+			if isClosure && (fr.isTop || fr.transparent) && s.FC != nil {
+				for _, d := range s.FC.Deferred {
+					if lit, ok := mc.Fn.(*ssa.Function); ok && d.Callee == "go" {
+						fr.capturesStay(d, mc, lit)
+					}
+				}
+			}
 			fr.call(x.Common(), nil, st)
 		} else {
 			fr.callOpaqueEffects(x.Common(), st)
